@@ -67,12 +67,13 @@ func (e *Engine) runFunctionUnit(u *Unit) {
 		for _, g := range ct.GhostParam {
 			u.ghostVars[g.Name] = env.vars[g.Name]
 		}
-		for _, rq := range ct.Requires {
-			st.assume(env.evalBool(rq.Expr))
+		for _, rq := range env.expand(ct.Requires) {
+			st.assume(rq.term)
 		}
 		e.assumeHolds(st, fn, ct, env)
 	}
 	e.assumeTypeInvariants(st, fn, env)
+	e.entryEvents(st, fr)
 	// vacuity guard: preconditions must be satisfiable
 	st.oblige("cover-pre", u.Name+"#cover-pre", "false", fn.Pos())
 	e.obligations[len(e.obligations)-1].ExpectSat = true
@@ -111,12 +112,8 @@ func (e *Engine) unitReturn(st *State, fr *Frame, results []Val, pos token.Pos) 
 		res = Val{T: fn.Signature.Results(), Tup: results}
 	}
 	e.bindResults(env, fn, res)
-	for i, en := range ct.Ensures {
-		nm := en.Name
-		if nm == "" {
-			nm = fmt.Sprintf("%d", i)
-		}
-		st.oblige("ensures", fmt.Sprintf("%s#ensures[%s]", u.Name, nm), env.evalBool(en.Expr), pos)
+	for _, en := range env.expand(ct.Ensures) {
+		st.oblige("ensures", fmt.Sprintf("%s#ensures[%s]", u.Name, en.name), en.term, pos)
 	}
 	e.checkTypeInvariantsAtExit(st, fr, env, pos)
 	if ct.HasMod {
@@ -316,8 +313,8 @@ func (e *Engine) runLemmaUnit(u *Unit) {
 		env.vars[p.Name] = v
 		st.inputs = append(st.inputs, InputTerm{Name: p.Name, Term: v.S})
 	}
-	for _, rq := range lm.Requires {
-		st.assume(env.evalBool(rq.Expr))
+	for _, rq := range env.expand(lm.Requires) {
+		st.assume(rq.term)
 	}
 	st.oblige("cover-pre", u.Name+"#cover-pre", "false", token.NoPos)
 	e.obligations[len(e.obligations)-1].ExpectSat = true
@@ -366,8 +363,8 @@ func (e *Engine) runLemmaUnit(u *Unit) {
 			for k, v := range st.heaps {
 				snap[k] = v
 			}
-			e.havocModifies(st, cenv, ct)
 			st.bumpFrontier()
+			e.havocModifies(st, cenv, ct)
 			res := e.freshResult(st, "res_"+fn.Name(), fn.Signature.Results())
 			post := &Env{eng: e, st: st, pkg: pkg, vars: cenv.vars, oldSnap: snap, hasOld: true, where: "ensures of " + s.Callee}
 			e.bindResults(post, fn, res)
